@@ -111,7 +111,17 @@ pub fn run(tier: &str, seed: u64) -> Report {
                 Some(t) => crate::c14::chain_facts(&g, &slot_keys, t).slot_on_source,
                 None => false,
               });
-              let shape = if g.redirects.contains_key(m.specifier()) || chain_has_slot_on_source {
+              // … or on the chain of the types dependency of the module the dependency resolves to
+              let types_chain_has_slot_on_source = [&dep.maybe_code, &dep.maybe_type].iter().any(|r| {
+                r.maybe_specifier()
+                  .and_then(|t| g.get(t))
+                  .and_then(|m| m.js())
+                  .and_then(|js| js.maybe_types_dependency.as_ref())
+                  .and_then(|td| td.dependency.maybe_specifier())
+                  .map(|t| crate::c14::chain_facts(&g, &slot_keys, t).slot_on_source)
+                  .unwrap_or(false)
+              });
+              let shape = if g.redirects.contains_key(m.specifier()) || chain_has_slot_on_source || types_chain_has_slot_on_source {
                 "slot-on-redirect-source"
               } else if f19_possible {
                 "types-only-segment-omits-untyped-module-with-types-dependency"
@@ -180,7 +190,7 @@ pub fn run(tier: &str, seed: u64) -> Report {
                 }
                 true
               });
-              if cycle {
+              if cycle || crate::world::redirect_budget_exceedable(&w) {
                 triggers.push("too-many-redirects-entry-depends-on-entry-point");
               }
               let cls = |m: &BTreeMap<String, String>| m.values().any(|v| matches!(v.as_str(), "error:sourcePhase" | "error:unsupportedAttr" | "error:unsupportedMedia" | "error:invalidTypeAssertion"));
